@@ -48,6 +48,13 @@ def _states(variant: str):
             yield (z, e, False)
 
 
+class _Deviation(Exception):
+    """The body leaves the recipe family in a way that is itself a defect."""
+
+
+BISECT_NAMES = ("bisect.bisect_left", "bisect_left", "bisect.bisect_right", "bisect_right", "bisect.bisect", "bisect")
+
+
 def _eval_fn(f: Func, spec_variant: str):
     node = f.node
     params = f.params()
@@ -55,31 +62,39 @@ def _eval_fn(f: Func, spec_variant: str):
         raise _Outside("expects (sorted_list, x)")
     a, x = params[0], params[1]
     body = [s for s in node.body if not (isinstance(s, ast.Expr) and isinstance(s.value, ast.Constant))]
-    ivar = None
-    variant = None
+    # every search primitive must be handed the caller's list and the caller's probe, full range
+    bis = [n for n in walk_local(node) if isinstance(n, ast.Call) and norm(n.func) in BISECT_NAMES]
+    deleg = [n for n in walk_local(node) if isinstance(n, ast.Call) and isinstance(n.func, ast.Name)
+             and n.func.id in SPEC and n.func.id != f.name]
+    for c in bis + deleg:
+        if not c.args or norm(c.args[0]) != a:
+            raise _Deviation(f"`{norm(c, 60)}` does not search the caller's list")
+        if len(c.args) < 2 or norm(c.args[1]) != x:
+            raise _Deviation(f"`{norm(c, 60)}` searches for `{norm(c.args[1]) if len(c.args) > 1 else '?'}`, not for the "
+                             f"caller's probe `{x}`: boundaries between adjacent values move")
+        if len(c.args) > 2 or c.keywords:
+            raise _Deviation(f"`{norm(c, 60)}` restricts the search window (lo/hi/key): the documented boundary is "
+                             f"defined over the whole list")
+    if deleg and not bis:
+        raise _Outside("delegates to another helper")
+    if len(bis) != 1:
+        raise _Outside(f"{len(bis)} bisect calls")
+    bcall = bis[0]
+    st_b = bcall
+    while not isinstance(st_b, ast.stmt):
+        st_b = st_b._parent
+    if not (isinstance(st_b, ast.Assign) and len(st_b.targets) == 1 and isinstance(st_b.targets[0], ast.Name)
+            and st_b.value is bcall):
+        raise _Outside("bisect result is not bound to a name")
+    ivar = st_b.targets[0].id
+    variant = "left" if norm(bcall.func).endswith("bisect_left") else "right"
     alias: Dict[str, str] = {}
-    rest: List[ast.stmt] = []
-    for k, s in enumerate(body):
-        if isinstance(s, ast.Assign) and len(s.targets) == 1 and isinstance(s.targets[0], ast.Name) \
-                and isinstance(s.value, ast.Call):
-            c = s.value
-            fn = norm(c.func)
-            if fn in ("bisect.bisect_left", "bisect_left", "bisect.bisect_right", "bisect_right",
-                      "bisect.bisect", "bisect"):
-                if ivar is not None:
-                    raise _Outside("two bisect calls")
-                if len(c.args) != 2 or c.keywords or norm(c.args[0]) != a or norm(c.args[1]) != x:
-                    raise _Outside(f"bisect call is not bisect(a, x): {norm(c)}")
-                ivar = s.targets[0].id
-                variant = "left" if fn.endswith("bisect_left") else "right"
-                continue
-            if fn == "len" and len(c.args) == 1 and norm(c.args[0]) == a:
-                alias[s.targets[0].id] = "len(a)"
-                continue
-        rest = body[k:]
-        break
-    if ivar is None:
-        raise _Outside("no `i = bisect_*(a, x)` definition found")
+    for s_ in walk_local(node):
+        if isinstance(s_, ast.Assign) and len(s_.targets) == 1 and isinstance(s_.targets[0], ast.Name) \
+                and isinstance(s_.value, ast.Call) and norm(s_.value.func) == "len" and len(s_.value.args) == 1 \
+                and norm(s_.value.args[0]) == a:
+            alias[s_.targets[0].id] = "len(a)"
+    rest = body
 
     class _Ren(ast.NodeTransformer):
         def visit_Name(self, n: ast.Name) -> ast.AST:
@@ -97,14 +112,19 @@ def _eval_fn(f: Func, spec_variant: str):
         return norm(ast.fix_missing_locations(_Ren().visit(clone_expr(e))))
 
     def atom(e: ast.AST, st) -> object:
-        z, en, m = st
+        z, en, m, xt = st
         t = canon(e)
-        # integer-valued expressions
+        empty = z and en
         table_bool = {
             "i": not z, "i > 0": not z, "i != 0": not z, "i >= 1": not z, "0 < i": not z, "0 != i": not z,
             "i == 0": z, "i < 1": z, "i <= 0": z, "not i": z, "0 == i": z,
             "i != len(a)": not en, "i < len(a)": not en, "len(a) > i": not en, "len(a) != i": not en,
             "i == len(a)": en, "i >= len(a)": en, "len(a) == i": en, "len(a) <= i": en,
+            "a": not empty, "len(a)": not empty, "len(a) > 0": not empty, "len(a) != 0": not empty,
+            "not a": empty, "len(a) == 0": empty, "not len(a)": empty,
+            # facts about the probe's own value are independent of the boundary situation
+            "x": xt, "not x": not xt, "x is None": not xt and False, "x is not None": True,
+            "x == 0": not xt, "x != 0": xt,
         }
         if t in table_bool:
             return table_bool[t]
@@ -157,17 +177,29 @@ def _eval_fn(f: Func, spec_variant: str):
                 continue
             elif isinstance(s, ast.Expr) and isinstance(s.value, ast.Constant):
                 continue
+            elif s is st_b:
+                continue
+            elif isinstance(s, ast.Assign) and len(s.targets) == 1 and isinstance(s.targets[0], ast.Name) \
+                    and s.targets[0].id in alias:
+                continue
             else:
                 raise _Outside(f"statement outside the normal form: {norm(s)}")
         return None
 
     results = {}
-    for st in _states(spec_variant if variant is None else variant):
-        try:
-            r = run(rest, st)
-            results[st] = r if r is not None else "None"
-        except _IndexErr:
-            results[st] = "IndexError"
+    for st3 in _states(variant):
+        for xt in (True, False):
+            st = st3 + (xt,)
+            try:
+                r = run(rest, st)
+                r = r if r is not None else "None"
+            except _IndexErr:
+                r = "IndexError"
+            prev = results.get(st3)
+            if prev is None or prev == r:
+                results[st3] = r
+            else:
+                results[st3] = f"{prev} or {r} depending on the probe's truthiness"
     return variant, results
 
 
@@ -179,6 +211,9 @@ def bisect_recipes(ctx):
         key = f"{name} | recipe"
         try:
             got_variant, results = _eval_fn(f, variant)
+        except _Deviation as ex:
+            yield Ob("C18.R1", ["C18", "C01"], key, False, f"{name}: {ex}", f.loc())
+            continue
         except _Outside as ex:
             raise AnalysisError("C18.R1", f"{name}: {ex}")
         bad = []
@@ -197,7 +232,7 @@ def bisect_recipes(ctx):
                  f.loc(), {"variant": got_variant, "states": {str(k): v for k, v in results.items()}})
 
 
-@rule("C18.R2", ["C18", "C01"], min_instances=6, design="3.18")
+@rule("C18.R2", ["C01", "C18"], min_instances=6, design="3.18")
 def bisect_call_sites(ctx):
     """Every find_* call passes (sorted container of Index, probe) in that order."""
     from .index_state import sorted_fields
@@ -205,6 +240,8 @@ def bisect_call_sites(ctx):
     for f in ctx.prog.all_funcs():
         for n in walk_local(f.node):
             if isinstance(n, ast.Call) and isinstance(n.func, ast.Name) and n.func.id in SPEC:
+                if f.name in SPEC:
+                    continue  # a helper delegating to a sibling is judged by C18.R1
                 ok = True
                 why = []
                 if len(n.args) != 2 or n.keywords:
@@ -217,6 +254,6 @@ def bisect_call_sites(ctx):
                         ok = False
                         why.append(f"first argument {norm(a0)} is not a container kept sorted "
                                    f"(sorted containers: {sorted(sf)})")
-                yield Ob("C18.R2", ["C18", "C01"], f"{f.qual} | call {n.func.id} | {norm(n)}", ok,
+                yield Ob("C18.R2", ["C01"] if ok is False else ["C01", "C18"], f"{f.qual} | call {n.func.id} | {norm(n)}", ok,
                          "; ".join(why) if why else "sorted container passed as the list argument",
                          ctx.prog.loc(n))
